@@ -478,6 +478,8 @@ type pair struct {
 	connA  gen.Connection
 	connB  gen.Connection
 	links  []*linkRelay
+
+	poisoned bool // a call into the connection panicked; its locks may be held for ever
 }
 
 const (
@@ -542,8 +544,11 @@ func (p *pair) addLink(gated bool) (*linkRelay, error) {
 }
 
 func (p *pair) close() {
-	p.connA.Terminate(nil)
-	p.connB.Terminate(nil)
+	if !p.poisoned {
+		// (after a panic inside send() the pool lock is never released: Terminate would block for ever)
+		p.connA.Terminate(nil)
+		p.connB.Terminate(nil)
+	}
 	for _, l := range p.links {
 		l.a1.Close()
 		l.a2.Close()
